@@ -1,0 +1,30 @@
+//go:build verif
+
+// Contracts of package manager (the mint's admin RPC) for the govc verifier
+// (/verif). Comment-only file, compiled only with the build tag `verif`.
+package manager
+
+// C16: the totals the admin interface reports are the sums of the store's per-keyset maps, i.e. the
+// ghost totals every issuance / redemption feeds (mint and storage contracts); no wrap under A-INV16.
+//@ func (*Server).issuedEcash
+//@   tags C16
+//@   safety C06 C16
+//@   requires s != nil && s.mint != nil && s.mint.db != nil && 0 <= db.redeemedtotal && db.redeemedtotal <= db.issuedtotal && db.issuedtotal < 9223372036854775808
+//@   loop range(issuedEcashMap) invariant 0 <= it && it <= n && totalIssued == esum.str(keys, mapvals(issuedEcashMap), it) % 18446744073709551616
+//@   ensures @total [C16] r1 == nil ==> r0.TotalIssued == db.issuedtotal
+//@   ensures @errisfault [C16] r1 != nil ==> db.faults > old(db.faults)
+
+//@ func (*Server).redeemedEcash
+//@   tags C16
+//@   safety C06 C16
+//@   requires s != nil && s.mint != nil && s.mint.db != nil && 0 <= db.redeemedtotal && db.redeemedtotal <= db.issuedtotal && db.issuedtotal < 9223372036854775808
+//@   loop range(redeemedEcashMap) invariant 0 <= it && it <= n && totalRedeemed == esum.str(keys, mapvals(redeemedEcashMap), it) % 18446744073709551616
+//@   ensures @total [C16] r1 == nil ==> r0.TotalRedeemed == db.redeemedtotal
+//@   ensures @errisfault [C16] r1 != nil ==> db.faults > old(db.faults)
+
+// C09: the fee handed to RotateKeyset is one the store can represent (RotateKeyset's precondition)
+//@ func (*Server).handleRotateKeyset
+//@   tags C09
+// the server holds a loaded mint (LoadMint @loaded / @kinv, the active keyset is the active row)
+//@   requires s != nil && s.mint != nil && s.mint.db != nil && s.mint.activeKeyset != nil && s.mint.keysets != nil && s.mint.logger != nil && kinv(s.mint) && db.ks[s.mint.activeKeyset.Id] && db.ksrow[s.mint.activeKeyset.Id].Active
+//@   calls (*mint.Mint).RotateKeyset asserts @fee [C09] fee < 9223372036854775808
